@@ -383,6 +383,58 @@ def h_path(a: List[str], z: List[str], gid: str, strict: bool, graph: bool, ero:
     return PathInfo.from_json('') is None and ERO.from_json(None) is None
 
 
+# ------------------------------------------------------------------ forward compatibility of every forgiving codec
+def _with_unknown(known, pos, extra):
+    """the known (key, value) pairs in text order with an unknown key inserted before position pos"""
+    items = list(known)
+    out = {}
+    for j, (k, v) in enumerate(items):
+        if j == pos:
+            out['%s_future' % ('aa' if j == 0 else 'mm')] = extra
+        out[k] = v
+    if pos >= len(items):
+        out['zz_future'] = extra
+    return out
+
+
+def _mk_fwd(cls, n_known):
+    def h_fwd(a: str, b: str, c: str, e: int, pos: int, flag: bool) -> bool:
+        """
+        pre: len(a) <= 2 and len(b) <= 2 and len(c) <= 2
+        pre: 0 <= pos <= n_known
+        post: R(_)
+        """
+        begin()
+        _closure = (n_known,)
+        known = {CapacityHints: [('instance_type', a)],
+                 ReservationInfo: [('error_message', a), ('reservation_id', b), ('reservation_state', c)],
+                 StructuralInfo: [('adm_graph_ids', [a, b]), ('parent_graph_id', c), ('sub_graph_id', b)],
+                 Location: [('postal', a), ('lat', 1.5), ('lon', -2.25)],
+                 Flags: [('auto_config', flag), ('ptp', True), ('ipv4_management', not flag)]}[cls]
+        P_ = 0
+        for P_ in range(n_known + 1):
+            if pos == P_:
+                break
+        text = JSONSHIM.dumps(_with_unknown(known, P_, e))
+        y = cls.from_json(text)
+        if y is None:
+            return False
+        for k, v in known:
+            if y.__dict__[k] != v:
+                return False
+        # and nothing unknown was taken in
+        return sorted(y.__dict__.keys()) == sorted(cls().__dict__.keys())
+    return h_fwd
+
+
+from vf.registry import add as _add
+for _cls, _n in ((CapacityHints, 1), (ReservationInfo, 3), (StructuralInfo, 3), (Location, 3), (Flags, 3)):
+    _add("forward_compat_unknown_key_any_position/" + _cls.__name__, _mk_fwd(_cls, _n), timeout=200,
+         encodes=(P + "JSONField.from_json", P + _cls.__name__ + "._set_fields"),
+         bounds="%s text with its %d known keys (strs len<=2 / symbolic bool) and one unknown key with a symbolic int value inserted at every "
+                "position (before the first, between, after the last)" % (_cls.__name__, _n))
+
+
 # ------------------------------------------------------------------ MaintenanceInfo
 DATES = [None, '2022-01-01T00:00:00+00:00', '2030-12-31T23:59:59.500000-05:00', '2024-02-29T12:00:00']
 NAMES = ['w1', 'w2', 'ALL']
